@@ -59,6 +59,15 @@ structure HOCore (F P : Type) where
   vertices : List (PathControlPoint P) := []
   hitObjects : List (HitObject F P) := []
 
+/-- the two path buffers of `HitObjectsState` that `convert_path_str` / `convert_points` work on. -/
+structure PathScratch (P : Type) where
+  curvePoints : List (PathControlPoint P) := []
+  vertices : List (PathControlPoint P) := []
+
+def HOCore.scratch (st : HOCore F P) : PathScratch P := ⟨st.curvePoints, st.vertices⟩
+def HOCore.withScratch (st : HOCore F P) (sc : PathScratch P) : HOCore F P :=
+  { st with curvePoints := sc.curvePoints, vertices := sc.vertices }
+
 def maxCoordinate : Int := 131072
 
 /-- `PathType::new_from_str`. -/
@@ -128,9 +137,18 @@ def splitLoop (pathType : PathType) (limit : Nat) :
           splitLoop pathType limit fuel vs cps (endIdx + 1) endIdx
       | _, _ => (vs, cps, startIdx, endIdx)   -- unreachable: endIdx < limit ≤ vs.length
 
+/-- the downgrade of perfect curves in `convert_points`: exactly three vertices that are collinear
+(to `f32::EPSILON`) become linear, any other vertex count becomes Bezier. -/
+def effectivePathType (pathType : PathType) (vs : List (PathControlPoint P)) : PathType :=
+  if pathType == PathType.perfect then
+    match vs with
+    | [a, b, c] => if isLinear a.pos b.pos c.pos then PathType.linear else pathType
+    | _ => PathType.bezier
+  else pathType
+
 /-- `HitObjectsState::convert_points`. -/
-def convertPoints (F : Type) [Scalar F] [Cvt P F] (st : HOCore F P) (points : List Str) (endPoint : Option Str)
-    (first : Bool) (offset : Pos P) : HOCore F P × Bool :=
+def convertPoints (F : Type) [Scalar F] [Cvt P F] (st : PathScratch P) (points : List Str) (endPoint : Option Str)
+    (first : Bool) (offset : Pos P) : PathScratch P × Bool :=
   match points with
   | [] => (st, false)
   | head :: tail =>
@@ -149,12 +167,7 @@ def convertPoints (F : Type) [Scalar F] [Cvt P F] (st : HOCore F P) (points : Li
       | none => ({ st with vertices := init ++ vs1 }, false)
       | some ev =>
         let vs := init ++ vs1 ++ ev
-        let pathType :=
-          if pathType == PathType.perfect then
-            match vs with
-            | [a, b, c] => if isLinear a.pos b.pos c.pos then PathType.linear else pathType
-            | _ => PathType.bezier
-          else pathType
+        let pathType := effectivePathType pathType vs
         match vs with
         | [] => ({ st with vertices := vs }, false)
         | v0 :: vrest =>
@@ -171,7 +184,7 @@ def firstIsAsciiAlpha (s : Str) : Option Bool :=
 
 /-- the segment loop of `convert_path_str` over the `|`-separated pieces. -/
 def pathLoop (F : Type) [Scalar F] [Cvt P F] (pieces : List Str) (offset : Pos P) :
-    Nat → HOCore F P → Nat → Nat → Bool → HOCore F P × Bool × Nat × Nat × Bool
+    Nat → PathScratch P → Nat → Nat → Bool → PathScratch P × Bool × Nat × Nat × Bool
   | 0, st, startIdx, endIdx, first => (st, true, startIdx, endIdx, first)
   | fuel + 1, st, startIdx, endIdx, first =>
     let endIdx := endIdx + 1
@@ -189,9 +202,9 @@ def pathLoop (F : Type) [Scalar F] [Cvt P F] (pieces : List Str) (offset : Pos P
           | (st', false) => (st', false, startIdx, endIdx, first)
           | (st', true) => pathLoop F pieces offset fuel st' endIdx endIdx false
 
-/-- `HitObjectsState::convert_path_str`. -/
-def convertPathStr (F : Type) [Scalar F] [Cvt P F] (st : HOCore F P) (pointStr : Str) (offset : Pos P) :
-    HOCore F P × Bool :=
+/-- the closure `f` of `convert_path_str`: all segments of the path string. -/
+def convertSegments (F : Type) [Scalar F] [Cvt P F] (st : PathScratch P) (pointStr : Str) (offset : Pos P) :
+    PathScratch P × Bool :=
   let pieces := splitOn '|' pointStr
   match pathLoop F pieces offset (pieces.length + 1) st 0 0 true with
   | (st', false, _, _, _) => (st', false)
@@ -199,6 +212,14 @@ def convertPathStr (F : Type) [Scalar F] [Cvt P F] (st : HOCore F P) (pointStr :
     if endIdx > startIdx then
       convertPoints F st' ((pieces.drop startIdx).take (endIdx - startIdx)) none first offset
     else (st', true)
+
+/-- `HitObjectsState::convert_path_str`: on failure `curve_points` is cleared, so the points of
+earlier segments of a malformed path never reach the next slider. -/
+def convertPathStr (F : Type) [Scalar F] [Cvt P F] (st : PathScratch P) (pointStr : Str) (offset : Pos P) :
+    PathScratch P × Bool :=
+  match convertSegments F st pointStr offset with
+  | (st', true) => (st', true)
+  | (st', false) => ({ st' with curvePoints := [] }, false)
 
 /-- per-node `read_custom_sample_banks` over `zip(node_bank_infos, next.split('|'))`, stopping at the first error. -/
 def readNodeBanks : List SampleBankInfo → List Str → Option (List SampleBankInfo)
@@ -214,144 +235,228 @@ def readNodeSounds : List Int → List Str → List Int
   | snds, [] => snds
   | _ :: is, s :: ss => ((HitSoundType.parse s).getD 0) :: readNodeSounds is ss
 
-def optNonEmpty (s : Option Str) : Option Str :=
-  match s with
-  | some x => if x.isEmpty then none else some x
-  | none => none
-
 def typeCircle : Nat := 0
 def typeSlider : Nat := 1
 def typeNewCombo : Nat := 2
 def typeSpinner : Nat := 3
 def typeHold : Nat := 7
 
-/-- `HitObjects::parse_hit_objects` (the hit-object part of the state; `mode` is `state.timing_points.mode()`). -/
-def parseHitObjectLine (mode : GameMode) (st : HOCore F P) (line : Str) : HOCore F P × Bool :=
+def optNonEmpty (s : Option Str) : Option Str :=
+  match s with
+  | some x => if x.isEmpty then none else some x
+  | none => none
+
+/-! ### `HitObjects::parse_hit_objects`, split into the pieces the theorems talk about -/
+
+/-- the five leading fields of a line. -/
+structure Header (F P : Type) where
+  pos : Pos P
+  startTime : F
+  ty0 : Int            -- the type field as parsed (`i32`)
+  soundType : Int      -- `HitSoundType` (0..255)
+  rest : List Str
+
+/-- leading fields: positions are parsed as `f32` within ±131072 and truncated (`as i32 as f32`). -/
+def parseHeader (line : Str) : Option (Header F P) :=
   match splitOn ',' (trimComment line) with
   | xs :: ys :: startTimeS :: kindS :: soundS :: rest =>
     match (floatParseWithLimits xs (Scalar.ofInt maxCoordinate) : Option P) with
-    | none => (st, false)
+    | none => none
     | some xv =>
     match (floatParseWithLimits ys (Scalar.ofInt maxCoordinate) : Option P) with
-    | none => (st, false)
+    | none => none
     | some yv =>
-    let pos : Pos P := ⟨Scalar.ofInt (Scalar.toI32 xv), Scalar.ofInt (Scalar.toI32 yv)⟩
     match (floatParse startTimeS : Option F) with
-    | none => (st, false)
+    | none => none
     | some startTime =>
     match i32FromStr kindS with
-    | none => (st, false)
+    | none => none
     | some ty0 =>
-    let comboOffset := (ty0 / 16) % 8
-    let ty1 := ty0 - comboOffset * 16
-    let newCombo := testBit ty1 typeNewCombo
-    let ty := if newCombo then ty1 - 4 else ty1
     match HitSoundType.parse soundS with
-    | none => (st, false)
+    | none => none
     | some soundType =>
-    let bankInfo : SampleBankInfo := {}
-    let firstObject := st.lastObject.isNone
-    let lastWasSpinner := match st.lastObject with | some k => testBit k typeSpinner | none => false
-    let finish (st : HOCore F P) (kind : HitObjectKind F P) (bankInfo : SampleBankInfo) : HOCore F P × Bool :=
-      ({ st with lastObject := some ty
-                 hitObjects := st.hitObjects ++ [{ startTime := startTime, kind := kind,
-                                                   samples := bankInfo.convertSoundType soundType }] }, true)
-    if testBit ty typeCircle then
-      let r := match rest with
-        | s :: _ => bankInfo.readCustomSampleBanks (splitOn ':' s) false
-        | [] => (bankInfo, true)
-      match r with
-      | (_, false) => (st, false)
+      some { pos := ⟨Scalar.ofInt (Scalar.toI32 xv), Scalar.ofInt (Scalar.toI32 yv)⟩,
+             startTime := startTime, ty0 := ty0, soundType := soundType, rest := rest }
+  | _ => none
+
+/-- `(type & COMBO_OFFSET) >> 4`. -/
+def comboOffsetOf (ty0 : Int) : Int := (ty0 / 16) % 8
+/-- the `NEW_COMBO` flag (bit 2). -/
+def newComboOf (ty0 : Int) : Bool := testBit (ty0 - comboOffsetOf ty0 * 16) typeNewCombo
+/-- the type with the combo-offset and new-combo bits cleared (what `last_object` remembers). -/
+def maskedType (ty0 : Int) : Int :=
+  let ty1 := ty0 - comboOffsetOf ty0 * 16
+  if newComboOf ty0 then ty1 - 4 else ty1
+
+inductive ObjClass | circle | slider | spinner | hold
+  deriving DecidableEq, Repr
+
+/-- flag precedence circle > slider > spinner > hold on the masked type. -/
+def classify (ty : Int) : Option ObjClass :=
+  if testBit ty typeCircle then some .circle
+  else if testBit ty typeSlider then some .slider
+  else if testBit ty typeSpinner then some .spinner
+  else if testBit ty typeHold then some .hold
+  else none
+
+def lastWasSpinner (st : HOCore F P) : Bool :=
+  match st.lastObject with | some k => testBit k typeSpinner | none => false
+
+/-- the `new_combo` value stored for circles and sliders. -/
+def forcedNewCombo (st : HOCore F P) (ty0 : Int) : Bool :=
+  st.lastObject.isNone || lastWasSpinner st || newComboOf ty0
+
+/-- the `combo_offset` value stored for circles and sliders. -/
+def storedComboOffset (ty0 : Int) : Int := if newComboOf ty0 then comboOffsetOf ty0 else 0
+
+def readExtras (rest : List Str) (banksOnly : Bool) : SampleBankInfo × Bool :=
+  match rest with
+  | s :: _ => ({} : SampleBankInfo).readCustomSampleBanks (splitOn ':' s) banksOnly
+  | [] => ({}, true)
+
+def buildCircle (st : HOCore F P) (hd : Header F P) : Option (HitObjectKind F P × SampleBankInfo) :=
+  match readExtras hd.rest false with
+  | (_, false) => none
+  | (bankInfo, true) =>
+    some (.circle { pos := hd.pos, newCombo := forcedNewCombo st hd.ty0, comboOffset := storedComboOffset hd.ty0 }, bankInfo)
+
+/-- repeat count stored for a slider whose repeat field parsed to `rc0` (≤ 9000). -/
+def storedRepeatCount (rc0 : Int) : Int := if rc0 - 1 < 0 then 0 else rc0 - 1
+
+/-- the optional length field: `none` = parse error, `some none` = natural length. -/
+def parseLength (rest2 : List Str) : Option (Option F) :=
+  match rest2 with
+  | next :: _ =>
+    match (floatParseWithLimits next (Scalar.ofInt maxCoordinate) : Option F) with
+    | none => none
+    | some l =>
+      let newLen := Scalar.max l 0
+      some (if le (Scalar.eps : F) (Scalar.abs newLen) then some newLen else none)
+  | [] => some none
+
+/-- node sample lists of a slider: `none` on a parse error. -/
+def buildNodeSamples (bankInfo : SampleBankInfo) (soundType : Int) (nodes : Nat) (next8 next9 : Option Str) :
+    Option (List (List HitSampleInfo)) :=
+  let nodeBankInfos0 := List.replicate nodes bankInfo
+  let nodeBanksR := match optNonEmpty next9 with
+    | some s => readNodeBanks nodeBankInfos0 (splitOn '|' s)
+    | none => some nodeBankInfos0
+  match nodeBanksR with
+  | none => none
+  | some nodeBankInfos =>
+    let nodeSounds0 := List.replicate nodes soundType
+    let nodeSounds := match optNonEmpty next8 with
+      | some s => readNodeSounds nodeSounds0 (splitOn '|' s)
+      | none => nodeSounds0
+    some ((nodeBankInfos.zip nodeSounds).map fun (b, s) => b.convertSoundType s)
+
+/-- everything of the slider arm that does not touch the state: all of it is evaluated (and can
+fail) before `convert_path_str` is called. -/
+structure SliderPrelude (F : Type) where
+  pointStr : Str
+  repeatCount : Int
+  len : Option F
+  nodeSamples : List (List HitSampleInfo)
+  bankInfo : SampleBankInfo
+
+def sliderPrelude (hd : Header F P) : Option (SliderPrelude F) :=
+  match hd.rest with
+  | pointStr :: repeatS :: rest2 =>
+    match i32Parse repeatS with
+    | none => none
+    | some rc0 =>
+      if rc0 > 9000 then none else
+      match (parseLength rest2 : Option (Option F)) with
+      | none => none
+      | some len =>
+        match readExtras (rest2.drop 3) true with
+        | (_, false) => none
+        | (bankInfo, true) =>
+          match buildNodeSamples bankInfo hd.soundType ((storedRepeatCount rc0).toNat + 2)
+              (rest2.drop 1).head? (rest2.drop 2).head? with
+          | none => none
+          | some nodeSamples =>
+            some { pointStr := pointStr, repeatCount := storedRepeatCount rc0, len := len,
+                   nodeSamples := nodeSamples, bankInfo := bankInfo }
+  | _ => none
+
+/-- the slider arm. The returned state differs from `st` only in the path scratch
+(`curve_points`, `vertices`): on success `curve_points` has been moved into the slider. -/
+def buildSlider (mode : GameMode) (st : HOCore F P) (hd : Header F P) :
+    HOCore F P × Option (HitObjectKind F P × SampleBankInfo) :=
+  match (sliderPrelude hd : Option (SliderPrelude F)) with
+  | none => (st, none)
+  | some pre =>
+    match convertPathStr F st.scratch pre.pointStr hd.pos with
+    | (sc, false) => (st.withScratch sc, none)
+    | (sc, true) =>
+      (st.withScratch { sc with curvePoints := [] },
+       some (.slider
+        { pos := hd.pos, newCombo := forcedNewCombo st hd.ty0, comboOffset := storedComboOffset hd.ty0,
+          path := { mode := mode, controlPoints := sc.curvePoints, expectedDist := pre.len },
+          nodeSamples := pre.nodeSamples, repeatCount := pre.repeatCount, velocity := 1 }, pre.bankInfo))
+
+def buildSpinner (hd : Header F P) : Option (HitObjectKind F P × SampleBankInfo) :=
+  match hd.rest with
+  | durS :: rest2 =>
+    match (floatParse durS : Option F) with
+    | none => none
+    | some d =>
+      match readExtras rest2 false with
+      | (_, false) => none
       | (bankInfo, true) =>
-        finish st (.circle { pos := pos, newCombo := firstObject || lastWasSpinner || newCombo,
-                             comboOffset := if newCombo then comboOffset else 0 }) bankInfo
-    else if testBit ty typeSlider then
-      match rest with
-      | pointStr :: repeatS :: rest2 =>
-        match i32Parse repeatS with
-        | none => (st, false)
-        | some rc0 =>
-          if rc0 > 9000 then (st, false) else
-          let repeatCount := if rc0 - 1 < 0 then 0 else rc0 - 1
-          let lenR : Option (Option F) :=
-            match rest2 with
-            | next :: _ =>
-              match (floatParseWithLimits next (Scalar.ofInt maxCoordinate) : Option F) with
-              | none => none
-              | some l =>
-                let newLen := Scalar.max l 0
-                some (if le (Scalar.eps : F) (Scalar.abs newLen) then some newLen else none)
-            | [] => some none
-          match lenR with
-          | none => (st, false)
-          | some len =>
-            let next8 := (rest2.drop 1).head?
-            let next9 := (rest2.drop 2).head?
-            let r := match (rest2.drop 3).head? with
-              | some s => bankInfo.readCustomSampleBanks (splitOn ':' s) true
-              | none => (bankInfo, true)
-            match r with
-            | (_, false) => (st, false)
-            | (bankInfo, true) =>
-              let nodes := repeatCount.toNat + 2
-              let nodeBankInfos0 := List.replicate nodes bankInfo
-              let nodeBanksR := match optNonEmpty next9 with
-                | some s => readNodeBanks nodeBankInfos0 (splitOn '|' s)
-                | none => some nodeBankInfos0
-              match nodeBanksR with
-              | none => (st, false)
-              | some nodeBankInfos =>
-                let nodeSounds0 := List.replicate nodes soundType
-                let nodeSounds := match optNonEmpty next8 with
-                  | some s => readNodeSounds nodeSounds0 (splitOn '|' s)
-                  | none => nodeSounds0
-                let nodeSamples := (nodeBankInfos.zip nodeSounds).map fun (b, s) => b.convertSoundType s
-                match convertPathStr F st pointStr pos with
-                | (st', false) => (st', false)
-                | (st', true) =>
-                  let controlPoints := st'.curvePoints
-                  let st' := { st' with curvePoints := [] }
-                  finish st' (.slider
-                    { pos := pos, newCombo := firstObject || lastWasSpinner || newCombo,
-                      comboOffset := if newCombo then comboOffset else 0,
-                      path := { mode := mode, controlPoints := controlPoints, expectedDist := len },
-                      nodeSamples := nodeSamples, repeatCount := repeatCount, velocity := 1 }) bankInfo
-      | _ => (st, false)
-    else if testBit ty typeSpinner then
-      match rest with
-      | durS :: rest2 =>
-        match (floatParse durS : Option F) with
-        | none => (st, false)
-        | some d =>
-          let duration := Scalar.max (d - startTime) 0
-          let r := match rest2 with
-            | s :: _ => bankInfo.readCustomSampleBanks (splitOn ':' s) false
-            | [] => (bankInfo, true)
-          match r with
-          | (_, false) => (st, false)
-          | (bankInfo, true) =>
-            finish st (.spinner { pos := ⟨(512 : P) / 2, (384 : P) / 2⟩, duration := duration, newCombo := newCombo }) bankInfo
-      | [] => (st, false)
-    else if testBit ty typeHold then
-      let endTime0 := Scalar.max startTime startTime
-      let r : Option (F × SampleBankInfo) :=
-        match optNonEmpty rest.head? with
-        | none => some (endTime0, bankInfo)
-        | some s =>
-          match splitOn ':' s with
-          | [] => none
-          | e :: ss =>
-            match (floatParse e : Option F) with
-            | none => none
-            | some newEnd =>
-              match bankInfo.readCustomSampleBanks ss false with
-              | (_, false) => none
-              | (bi, true) => some (Scalar.max startTime newEnd, bi)
-      match r with
+        some (.spinner { pos := ⟨(512 : P) / 2, (384 : P) / 2⟩, duration := Scalar.max (d - hd.startTime) 0,
+                         newCombo := newComboOf hd.ty0 }, bankInfo)
+  | [] => none
+
+def buildHold (hd : Header F P) : Option (HitObjectKind F P × SampleBankInfo) :=
+  let endTime0 := Scalar.max hd.startTime hd.startTime
+  let r : Option (F × SampleBankInfo) :=
+    match optNonEmpty hd.rest.head? with
+    | none => some (endTime0, {})
+    | some s =>
+      match splitOn ':' s with
+      | [] => none
+      | e :: ss =>
+        match (floatParse e : Option F) with
+        | none => none
+        | some newEnd =>
+          match ({} : SampleBankInfo).readCustomSampleBanks ss false with
+          | (_, false) => none
+          | (bi, true) => some (Scalar.max hd.startTime newEnd, bi)
+  match r with
+  | none => none
+  | some (endTime, bankInfo) => some (.hold { posX := hd.pos.x, duration := endTime - hd.startTime }, bankInfo)
+
+/-- the common tail: push the object and remember the masked type. -/
+def pushObject (st : HOCore F P) (hd : Header F P) (kind : HitObjectKind F P) (bankInfo : SampleBankInfo) :
+    HOCore F P :=
+  { st with lastObject := some (maskedType hd.ty0)
+            hitObjects := st.hitObjects ++ [{ startTime := hd.startTime, kind := kind,
+                                              samples := bankInfo.convertSoundType hd.soundType }] }
+
+/-- `HitObjects::parse_hit_objects` (hit-object part of the state; `mode` is `state.timing_points.mode()`). -/
+def parseHitObjectLine (mode : GameMode) (st : HOCore F P) (line : Str) : HOCore F P × Bool :=
+  match (parseHeader line : Option (Header F P)) with
+  | none => (st, false)
+  | some hd =>
+    match classify (maskedType hd.ty0) with
+    | none => (st, false)
+    | some .circle =>
+      match buildCircle st hd with
       | none => (st, false)
-      | some (endTime, bankInfo) =>
-        finish st (.hold { posX := pos.x, duration := endTime - startTime }) bankInfo
-    else (st, false)
-  | _ => (st, false)
+      | some (k, b) => (pushObject st hd k b, true)
+    | some .slider =>
+      match buildSlider mode st hd with
+      | (st', none) => (st', false)
+      | (st', some (k, b)) => (pushObject st' hd k b, true)
+    | some .spinner =>
+      match buildSpinner hd with
+      | none => (st, false)
+      | some (k, b) => (pushObject st hd k b, true)
+    | some .hold =>
+      match buildHold hd with
+      | none => (st, false)
+      | some (k, b) => (pushObject st hd k b, true)
 
 end Rosu
